@@ -65,6 +65,11 @@ CONFIGS = {
     "K31": dict(lend=dict(req="0.5", isym="USD", period=10, minint=1, req_by_symbol={"BTC": "0"}), fee=("0.25", 500), liq=None,
                 init=(("USD", 100),), bp=0, qp=2),
     # interest on every loan charged in BTC: for a USD loan the conversion goes through the inverse of BTC/USD
+    # three pairs with different precisions and quote symbols (ETH/BTC quoted with ONE decimal, BTC/USD with four)
+    "K35": dict(lend=None, fee=("0.25", 0), liq=None, init=(("USD", 10000), ("BTC", 100), ("ETH", 100)), bp=2, qp=4, pairs=3,
+                pair_prec={2: (2, 1)}),
+    # a user-defined fee scheme that charges buys in the BASE symbol
+    "K36": dict(lend=None, fee=("base", "1"), liq=(25, 10), init=(("USD", 1000), ("BTC", 5)), bp=2, qp=2),
     # a large account: one precision unit is a tiny fraction of the largest admissible loan (margin boundary)
     "K34": dict(lend=dict(req="0.2", isym="USD", period=10), fee=None, liq=None, init=(("USD", 10000000),), bp=0, qp=2),
     "K33": dict(lend=dict(req="0.5", isym="BTC", period=1, pct=3), fee=None, liq=None, init=(("USD", 1000), ("BTC", 1)),
@@ -73,7 +78,7 @@ CONFIGS = {
 
 
 
-PURPOSE_BUILT = {"K23", "K24", "K25", "K26", "K27", "K28", "K29", "K30", "K31", "K33", "K34"}
+PURPOSE_BUILT = {"K35", "K36", "K23", "K24", "K25", "K26", "K27", "K28", "K29", "K30", "K31", "K33", "K34"}
 
 
 def thorough_spec(quick, focus, cross=False, exclude=()):
